@@ -291,7 +291,14 @@ CaptiveAlias2Tr == C("captivealias2tr", <<As(R("r1", SC, 0, "a", "ctorerr", FALS
 CycleAlias == C("cyclealias", <<As(R("r1", SC, 0, "a", "ctorerr", FALSE, <<P("S1")>>), <<"I0", "I1">>),
                                 R("r2", SC, 1, "a", "ctorerr", FALSE, <<P("I1")>>)>>)
 
-CfgMore == {Embedded, AliasDeps, DupDeps, DiamondPO, DiamondPOKG, Alias2Transient, OptionalSing, GroupTransDeps, GroupMixedOK, AliasGroupAsym}
+\* a service whose constructor is declared to return the interface type (it can return an untyped nil)
+Iface == C("iface", <<R("r1", SC, 0, "a", "ifacerr", FALSE, <<>>),
+                      R("r2", SC, 1, "a", "ctorerr", FALSE, <<P("I0")>>),
+                      R("r3", SG, 2, "a", "ctorerr", FALSE, <<>>)>>)
+IfaceSing == C("ifacesing", <<R("r1", SG, 0, "a", "ifacerr", FALSE, <<>>),
+                              R("r2", TR, 1, "a", "ctorerr", FALSE, <<P("I0")>>)>>)
+
+CfgMore == {Iface, IfaceSing, Embedded, AliasDeps, DupDeps, DiamondPO, DiamondPOKG, Alias2Transient, OptionalSing, GroupTransDeps, GroupMixedOK, AliasGroupAsym}
 
 Plain == {Basic, Chain, Keyed, Group, GroupScoped, GroupDeps, Multi, MultiTr, OutKN, OutKNSing, Alias1, Alias2,
           Alias2Scoped, Diamond2, Optional, Inits, InitSing, Builtin, InstVal, InstVals} \cup CfgForms \cup CfgMore \cup CfgRemoved
@@ -301,7 +308,7 @@ Defective == {Cycle2, CycleGroup, Captive, CaptiveGroup, MissingDep, GroupMixedC
 Hows == {"err", "panic"}
 \* a scripted error needs a constructor shape that can return one
 RegOfC(c, id) == c.regs[CHOOSE i \in DOMAIN c.regs : c.regs[i].id = id]
-CanErr(r) == r.shape \in {"ctorerr", "multierr", "initerr", "outkn", "outkg"}
+CanErr(r) == r.shape \in {"ctorerr", "multierr", "initerr", "outkn", "outkg", "ifacerr"}
 Sane(cs) == {c \in cs : \A i \in DOMAIN c.faults : c.faults[i].how = "err" => CanErr(RegOfC(c, c.faults[i].reg))}
 FaultyAll == {WithFault(Basic, r, 1, h) : r \in {"r1", "r2", "r3"}, h \in Hows}
      \cup {WithFault(Basic, "r3", 2, h) : h \in Hows}
@@ -318,7 +325,8 @@ SingChain == C("singchain", <<R("r1", SG, 0, "a", "ctorerr", FALSE, <<>>),
                               R("r4", SC, 3, "a", "ctorerr", FALSE, <<P("S2")>>)>>)
 CancelFaulty == {WithFault(SingChain, r, 1, "cancel") : r \in {"r1", "r2", "r3"}}
            \cup {WithFault(Multi, "r1", 1, "cancel"), WithFault(GroupDeps, "r1", 1, "cancel"), WithFault(GroupDeps, "r3", 1, "cancel")}
-Faulty == Sane(FaultyAll) \cup CancelFaulty
+IfaceFaulty == {WithFault(Iface, "r1", at, h) : at \in {1, 2}, h \in {"nil", "err"}} \cup {WithFault(IfaceSing, "r1", 1, "nil")}
+Faulty == Sane(FaultyAll) \cup CancelFaulty \cup IfaceFaulty
 NilFaulty == {WithFault(Basic, r, 1, "nil") : r \in {"r1", "r2", "r3"}}
 
 CloseErrs == {WithCloseErr(Basic, ce) : ce \in {<<"r1">>, <<"r2">>, <<"r3">>, <<"r1", "r2">>, <<"r2", "r3">>, <<"r1", "r2", "r3">>}}
